@@ -66,6 +66,14 @@ def conj_consequent_base(rng):
     for a in conj_atoms[1:]:
         B = And(B, V(a))
     conds = [(B, V(g))] + [(V(p), V(g)) for p in plain]
+    if rng.random() < 0.5:
+        # the rules above become an UPPER layer: by default g does not hold, and some of the atoms the rules
+        # talk about are false by default, so a tie among the rules is continued differently below
+        conds.append((Not(V(g)), TOP))
+        for a_ in rng.sample(conj_atoms + plain, rng.randint(1, 3)):
+            conds.append((Not(V(a_)), TOP))
+        rng.shuffle(conds)
+        return [a for a in sig if a in [g] + conj_atoms + plain], conds
     if rng.random() < 0.4:
         conds.append((Or(V(conj_atoms[0]), V(plain[0])), TOP))
     used = [g] + conj_atoms + plain
@@ -270,6 +278,34 @@ def weak_shape(rng):
             inf.append((y, And(x, Not(y))))     # antecedent contradicts consequent
     if k < 0.3:
         conds = inf
+    elif k < 0.6:
+        # a structured strongly consistent base (ties, conjunctive consequents, chains) plus an infinity layer
+        # over a fresh atom u: worlds with u are infeasible, queries may mention u
+        fam = rng.choice(['multiex', 'conjcons', 'indep', 'chain', 'd4', 'disjant'])
+        for _ in range(30):
+            if fam == 'multiex':
+                sig, fin = multi_exception_base(rng)
+            elif fam == 'conjcons':
+                sig, fin = conj_consequent_base(rng)
+            elif fam == 'indep':
+                sig, fin = indep_layer_base(rng)
+            elif fam == 'chain':
+                sig, fin = penguin_chain(rng, rng.randint(2, 4))
+            elif fam == 'd4':
+                sig, fin = d4_family(rng)
+            else:
+                sig, fin = disjunctive_antecedent_base(rng)
+            if len(sig) <= 5 or (len(sig) <= 7 and rng.random() < 0.5):
+                break
+        un = 'u' if 'u' not in sig else 'uu'
+        sig = list(sig) + [un]
+        u = V(un)
+        inf = [rng.choice([(BOT, u), (Not(u), u), (BOT, And(u, fml.rand_formula(rng, sig[:-1], 0, 0.0)))])]
+        if rng.random() < 0.3:
+            inf.append((u, And(u, fml.rand_formula(rng, sig[:-1], 0, 0.0))))
+        conds = list(fin) + inf
+        rng.shuffle(conds)
+        return sig, conds
     else:
         _, fin = rand_base(rng, nat, rng.randint(1, 4), rng.choice([0, 1, 2]), 0.02)
         conds = fin + inf
@@ -357,8 +393,12 @@ def tie_query(rng, sig, conds):
             # cost order {p}:1 < {p1,p2}:2 < {j0}:k while the cardinalities are 1, 2, 1
             p3 = rng.choice(plain)
             A = Or(A, And(conds[p3][1], Not(conds[p3][0])))
+        both = And(And(conds[p1][1], Not(conds[p1][0])), And(conds[p2][1], Not(conds[p2][0])))
+        y = fml.rand_formula(rng, sig, 0, 0.0)
         Bq = rng.choice([conds[p1][0], conds[j0][0], Or(conds[p1][0], conds[j0][0][1]),
-                         fml.rand_formula(rng, sig, 1, 0.0)])
+                         fml.rand_formula(rng, sig, 1, 0.0),
+                         Or(both, y),            # one side sees both classes of worlds, the other only one
+                         Not(Or(both, y)), Or(strong_falsifier(*conds[j0]), y), And(Not(both), y)])
         return (Bq, A)
     A = None
     for j in js:
